@@ -21,7 +21,13 @@ Families: A (all assignments to 3/4 slots; full decoration product on 2/3 slots)
 combinations), W (10-12 rules in one evaluation), D (a rule depending on a rule), T (declaration shapes:
 no dependencies, tags as set / tuple / two tags, two link categories, explicit empty tags and links;
 keys with %, |, quotes, non-ASCII), K (metadata keys named like a section heading), H (two-step
-histories in one process: fresh objects, same broker, same evaluator object), B (constructors).
+histories in one process: fresh objects, same broker, same evaluator object), B (constructors),
+C (rules declaring a content template - as ``content=`` string / dict by key / dict by response class / key ->
+class, or as the module's ``CONTENT`` - over the templates {valid, undefined variable, does not compile (unclosed
+block, unknown filter), fails while rendering, not a string, empty} x every behaviour, through the formatters with
+``render_content`` switched on (JsonFormat, its adapter with -r, YamlFormat) and two controls; the oracle is the same
+counting argument: whatever its template looks like, a rule that returned a response is listed exactly once.  The
+text of ``rendered_content`` is not judged - the statement does not speak about it).
 
 Readings (the statement is loose there; LESSONS.md point 7 re-checked):
   * ``make_metadata_key`` is not among the statement's types but it is a response a rule may return, so
@@ -72,7 +78,13 @@ RULE = ("A: every assignment of {absent, 22 behaviours (incl. required / at-leas
         "evaluator); B: every response class x key shape x kwarg name x payload kind x size limit-2..limit+2, "
         "limit 0. Non-trivial: at least two rules located (A, W, D, H), options hid one rule and showed one (S), "
         "validation or the limit fired (B), always for T / K; I: every behaviour / dependency situation of a rule "
-        "registered with dr.add_ignore x marker in the broker or not (non-trivial when the marker is present)")
+        "registered with dr.add_ignore x marker in the broker or not (non-trivial when the marker is present); "
+        "C: content templates {valid, undefined variable, unclosed block, unknown filter, render-time error, "
+        "non-string, empty} x placement {content= string, dict by key, dict by response class, key -> class; module "
+        "CONTENT in the same four forms} x every behaviour x {alone, after a plain rule, before / beside a rule with "
+        "its own valid or uncompilable template}, every ordered pair of templates on two rules, each through "
+        "JsonFormat(render_content), JsonFormatterAdapter -r, YamlFormat(render_content) (single-rule-declaration "
+        "family also through plain JsonFormat and SingleEvaluator as controls) (non-trivial: a rendering driver and a response that the declaration assigns a template to)")
 ASSUMPTIONS = [
     "rule bodies are callables decorated by the real @rule whose hash is their palette index, so the engine runs "
     "them in index order in every process (measured: counter cases_bodies_not_run_in_slot_order); the oracle is "
@@ -88,11 +100,15 @@ BOUNDS = {
     "quick": {"mixed_slots": 3, "full_slots": 2, "behaviours": 23, "full_family_extra_behaviours": 6,
               "decorations": 4, "secondary_driver_max_rules_part_a": 2, "wide_rules": [10, 11, 12],
               "select_multiset_max": {"json": 3, "json-adapter": 2, "yaml": 2, "yaml-adapter": 2},
-              "select_options": 128, "constructor_limit": [96, 0], "constructor_sizes": "limit-2..limit+2"},
+              "select_options": 128, "constructor_limit": [96, 0], "constructor_sizes": "limit-2..limit+2",
+              "content_templates": 7, "content_placements": {"kwarg": 4, "module": 4}, "content_drivers": 5,
+              "content_rules_per_case_max": 2},
     "thorough": {"mixed_slots": 4, "full_slots": 3, "behaviours": 23, "full_family_extra_behaviours": 6,
                  "decorations": 4, "secondary_driver_max_rules_part_a": 3, "wide_rules": [10, 11, 12],
                  "select_multiset_max": {"json": 4, "json-adapter": 4, "yaml": 4, "yaml-adapter": 3},
-                 "select_options": 128, "constructor_limit": [96, 0], "constructor_sizes": "limit-2..limit+2"},
+                 "select_options": 128, "constructor_limit": [96, 0], "constructor_sizes": "limit-2..limit+2",
+                 "content_templates": 7, "content_placements": {"kwarg": 4, "module": 4}, "content_drivers": 5,
+                 "content_rules_per_case_max": 2},
 }
 CAP_S = {"quick": 300, "thorough": 3600}
 TECHNIQUE = ("bounded exhaustive enumeration of rule sets x drivers x formatter options (and two-step histories) executed "
@@ -101,7 +117,10 @@ LEVEL_TEXT = ("Every rule set of <= 3 (quick) / <= 4 (thorough) rules over an al
               "value / dependency situation (shared keys, types, modules, names) is evaluated with every evaluator-based "
               "driver, every (missing, show_rules) option combination is applied to every multiset of outcome kinds, sets "
               "of 10-12 rules, dependent rules, declaration shapes and two-step histories are enumerated, and every "
-              "response constructor is called with every key shape, reserved name and payload size around the limit. "
+              "response constructor is called with every key shape, reserved name and payload size around the limit; "
+              "rules declaring content templates (valid, undefined variable, uncompilable, failing at render time, "
+              "non-string, empty; every documented placement incl. the module's CONTENT) are evaluated through the "
+              "formatters with render_content switched on and must be accounted exactly like rules without content. "
               "The statement is 'no counterexample within the bound'.")
 LEVEL_NOTE = ("Trusted: the harness' own locating of rules in the parsed JSON / YAML output (YAML python tags are read as "
               "plain data); one execution order per rule set (index order; all behaviour sequences are covered by the "
@@ -111,7 +130,8 @@ LEVEL_NOTE = ("Trusted: the harness' own locating of rules in the parsed JSON / 
 # ---- alphabets ---------------------------------------------------------------------------------
 
 PKG = "verif_c12"
-MODS = {"A": PKG + ".alpha", "B": PKG + ".beta", "C": PKG + ".sub.alpha", "W": PKG + ".wide"}
+MODS = {"A": PKG + ".alpha", "B": PKG + ".beta", "C": PKG + ".sub.alpha", "W": PKG + ".wide",
+        "G": PKG + ".gamma", "M": PKG + ".delta"}
 LINKS = {"kcs": ["https://access.example.com/solutions/1"]}
 LINKS2 = {"kcs": ["https://access.example.com/solutions/1"],
           "jira": ["https://issues.example.com/A-1", "https://issues.example.com/A-2"]}
@@ -135,6 +155,72 @@ for _i in WIDE:
     RULES[_i] = ("W", "w%d" % (_i - 4), "std")
 for _i, _d in SHAPED.items():
     RULES[_i] = ("B", _d, "std")
+
+# ---- family C: rules that declare a content template (rule(content=...) / module level CONTENT) ------------------
+# name -> what the rule author wrote as a template.  'valid' renders; 'undefined' dereferences an undefined variable
+# (render-time UndefinedError); 'unclosed' and 'badfilter' do not compile; 'runtime' compiles and fails while rendering
+# with something that is not an UndefinedError; 'nonstring' is not a template at all; 'empty' is falsy.
+TEMPLATES = {"valid": "slot {{slot}} of type {{type}}", "undefined": "undefined: {{nothing.here}}",
+             "unclosed": "{% if type %}never closed: {{slot}}", "badfilter": "{{ type | no_such_filter }}",
+             "runtime": "{{ 1 // (type | int) }}", "nonstring": 42, "empty": ""}
+TEMPLATE_ORDER = ["valid", "undefined", "unclosed", "badfilter", "runtime", "nonstring", "empty"]
+# how the template reaches the response (documented forms of ``content``: a string for all return values, a dict keyed
+# by response key, by response class, or key -> class); in the dict forms the neighbouring entries are 'valid'
+PLACEMENTS = ["str", "by-key", "by-class", "key-class"]
+CONTENT_BASE = 30
+CONTENT_OF = {}                                                  # index -> (placement, template) of a content= kwarg
+for _p, _pn in enumerate(PLACEMENTS):
+    for _t, _tn in enumerate(TEMPLATE_ORDER):
+        _i = CONTENT_BASE + _p * len(TEMPLATE_ORDER) + _t
+        CONTENT_OF[_i] = (_pn, _tn)
+        RULES[_i] = ("G", "c_%s_%s" % (_pn.replace("-", "_"), _tn), "std")
+# module "M": its CONTENT attribute comes from the case ("module_content": [placement, template]); g0 / g1 declare no
+# content (the module's applies), gk / gb declare their own (valid / unclosed) next to the module's
+G0, G1, GK, GB = 60, 61, 62, 63
+RULES.update({G0: ("M", "g0", "std"), G1: ("M", "g1", "std"), GK: ("M", "gk", "std"), GB: ("M", "gb", "std")})
+CONTENT_OF[GK] = ("str", "valid")
+CONTENT_OF[GB] = ("str", "unclosed")
+MODULE_CONTENT_RULES = (G0, G1)
+
+
+def content_object(placement, template):
+    """The object a rule author passes as ``content=`` / assigns to ``CONTENT`` (fresh on every call)."""
+    from insights.core import plugins as P
+    t, ok = TEMPLATES[template], TEMPLATES["valid"]
+    if placement == "str":
+        return t
+    if placement == "by-key":
+        return {"K1": t, "K2": ok}
+    if placement == "by-class":
+        return {P.make_fail: t, P.make_info: t, P.make_pass: ok}
+    if placement == "key-class":
+        return {"K1": {P.make_fail: t, P.make_pass: ok}, "K2": t}
+    raise ValueError(placement)
+
+
+def template_for(placement, template, kind, key):
+    """Which template the declaration assigns to a response of this kind / key (None: none).  Used for the case
+    features and the non-triviality measure only - never for a verdict."""
+    if kind not in KEYED and kind != "none":
+        return None
+    if placement == "str":
+        return template
+    if placement == "by-key":
+        return {"K1": template, "K2": "valid"}.get(key)
+    if placement == "by-class":
+        return {"fail": template, "info": template, "pass": "valid"}.get(kind)
+    if key == "K1":
+        return {"fail": template, "pass": "valid"}.get(kind)
+    return template if key == "K2" else None
+
+
+def content_of_rule(idx, case):
+    """(placement, template) that governs rule idx in this case, or None."""
+    if idx in CONTENT_OF:
+        return CONTENT_OF[idx]
+    if idx in MODULE_CONTENT_RULES and case.get("module_content"):
+        return tuple(case["module_content"])
+    return None
 
 
 def fixed_deco(idx):
@@ -349,6 +435,8 @@ def _pal():
             kw["tags"] = type(tags)(tags)
         if links is not None:
             kw["links"] = dict((k, list(v)) for k, v in links.items())
+        if idx in CONTENT_OF:
+            kw["content"] = content_object(*CONTENT_OF[idx])
         return rule(*deps, **kw)(f)
 
     never = dict((m, mkdep(m, "%s.never" % MODS[m], True)) for m in MODS)
@@ -453,13 +541,16 @@ class _Driver(object):
         elif driver == "yaml":
             from insights.formats._yaml import YamlFormat
             self.obj = YamlFormat(broker, missing, show, stream=io.StringIO())
-        elif driver in ("json-adapter", "yaml-adapter"):
-            if driver == "json-adapter":
+        elif driver == "yaml-render":
+            from insights.formats._yaml import YamlFormat
+            self.obj = YamlFormat(broker, missing, show, stream=io.StringIO(), render_content=True)
+        elif driver in ("json-adapter", "yaml-adapter", "json-adapter-render", "yaml-adapter-render"):
+            if driver.startswith("json"):
                 from insights.formats._json import JsonFormatterAdapter as Adapter
             else:
                 from insights.formats._yaml import YamlFormatterAdapter as Adapter
             cli = [CLI_OF.get(t, t) for t in show] or None
-            args = argparse.Namespace(missing=missing, render_content=False, show_rules=cli,
+            args = argparse.Namespace(missing=missing, render_content=driver.endswith("-render"), show_rules=cli,
                                       fail_only=bool(case.get("fail_only")), plugins=None)
             self.adapter = Adapter(args)
         else:
@@ -502,11 +593,17 @@ def _execute(case):
     # value in the broker before the evaluation starts (the way an execution context does)
     pal = _pal()
     ignoring = [pal["rules"][(idx, deco)] for idx, _, deco in present_rules(case) if idx in (case.get("ignore") or [])]
+    # "module_content": [placement, template] -> the CONTENT attribute of the synthetic module "M" during the case
+    mod_m = sys.modules[MODS["M"]]
     try:
+        if case.get("module_content"):
+            mod_m.CONTENT = content_object(*case["module_content"])
         for fn in ignoring:
             dr.add_ignore(fn, pal["marker"])
         return _execute_steps(case, steps, history, broker, drv, resp, err)
     finally:
+        if hasattr(mod_m, "CONTENT"):
+            del mod_m.CONTENT
         for fn in ignoring:
             dr.IGNORE[fn].discard(pal["marker"])
             if not dr.IGNORE[fn]:
@@ -600,11 +697,18 @@ def _judge(case, obs, sel):
     mode = "accounting" if show_all else "selection"
     names = dict((rule_name(idx), idx) for idx, _, _ in present)
     ignored = set(case.get("ignore") or []) if case.get("marker") else set()
+    beh_by_idx = dict((i, b) for i, b, _ in present)
 
     def feats_of(kind, idx=None, **kw):
         f = {"driver": driver, "kind": kind}
         if idx in ignored:
             f["ignored"] = True
+        if idx is not None and content_of_rule(idx, case):
+            pl, tn = content_of_rule(idx, case)
+            f["content_placement"], f["content_template"] = pl, tn
+            f["content_source"] = "kwarg" if idx in CONTENT_OF else "module"
+            k0, key0 = _split(beh_by_idx[idx])
+            f["template_for_response"] = template_for(pl, tn, k0, key0)
         if history:
             f["history"] = history
             if idx is not None:
@@ -1088,9 +1192,69 @@ def small_cases(tier):
                         yield c
 
 
+C_DRIVERS = ["json-render", "json-adapter-render", "yaml-render", "json", "single-serial"]
+C_MODULE_BEHS = LISTED_BEHS + ["metadata", "raise", "unmet_req", "skip"]
+C_SHARDS = 16
+
+
+def content_cases(tier):
+    """Family C: rules that declare a content template, through the drivers that render content (JsonFormat with
+    render_content, the JSON adapter with -r, YamlFormat with render_content) and two that do not (controls).
+      C1  every (placement, template) content= declaration x every behaviour x {alone, after a plain rule, before a
+          rule with a valid template}
+      CP  every ordered pair of templates (first as a string, second looked up by key) x behaviours of both
+      CM  every (placement, template) as the module's CONTENT x behaviour of a rule without content= x {alone, with a
+          second such rule, with a rule of the module that declares a valid / an uncompilable template itself}"""
+    def with_drivers(desc):
+        # the two drivers that never look at content are controls: family C1 only
+        for d in (C_DRIVERS if desc["sub"] == "C1" else [x for x in C_DRIVERS if x.endswith("-render")]):
+            c = dict(desc, driver=d)
+            if d not in LIVE_DRIVERS:
+                c.update(ALL_SHOWN)
+            yield c
+    for idx in sorted(i for i in CONTENT_OF if i not in (GK, GB)):
+        for b in BEHS:
+            for rules, extra in (([], [[idx, b]]), ([None, ["fail:K1", "tl"]], [[idx, b]]),
+                                 ([], [[idx, b], [GK, "pass:K1"]])):
+                for c in with_drivers({"part": "C", "sub": "C1", "rules": rules, "extra": extra}):
+                    yield c
+    nt = len(TEMPLATE_ORDER)
+    for t1 in range(nt):
+        for t2 in range(nt):
+            i1 = CONTENT_BASE + PLACEMENTS.index("str") * nt + t1
+            i2 = CONTENT_BASE + PLACEMENTS.index("by-key") * nt + t2
+            for b1 in ("fail:K1", "pass:K1", "none", "unmet_req"):
+                for b2 in ("fail:K1", "info:K1", "fingerprint:K1"):
+                    for c in with_drivers({"part": "C", "sub": "CP", "rules": [], "extra": [[i1, b1], [i2, b2]]}):
+                        yield c
+    for pl in PLACEMENTS:
+        for tn in TEMPLATE_ORDER:
+            for b in C_MODULE_BEHS:
+                for extra in ([[G0, b]], [[G0, b], [G1, "pass:K1"]], [[G0, b], [GK, "fail:K1"]],
+                              [[G0, b], [GB, "fail:K1"]]):
+                    for c in with_drivers({"part": "C", "sub": "CM", "rules": [], "extra": extra,
+                                           "module_content": [pl, tn]}):
+                        yield c
+
+
+def templated_rules(case):
+    """Number of rules of the case whose response is assigned a (truthy) template by a content declaration."""
+    n = 0
+    for idx, beh, _ in present_rules(case):
+        co = content_of_rule(idx, case)
+        if co:
+            kind, key = _split(beh)
+            t = template_for(co[0], co[1], kind, key)
+            if t is not None and TEMPLATES[t]:
+                n += 1
+    return n
+
+
 def units(tier, seed):
     b = BOUNDS[tier]
     us = []
+    for i in range(C_SHARDS):
+        us.append({"part": "C", "shard": i, "of": C_SHARDS})
     for family, n in (("mixed", b["mixed_slots"]), ("full", b["full_slots"])):
         nsym0 = len(_mixed_symbols(0) if family == "mixed" else _full_symbols(0))
         nsym1 = len(_mixed_symbols(1) if family == "mixed" else _full_symbols(1))
@@ -1204,6 +1368,19 @@ def run_unit(unit, tier):
             _record(res, case, vio, nontrivial, "%s:%s" % (case["part"], ",".join(sorted(info["places"]))))
             res.stat("cases_family_%s" % case["part"], 1)
             if k < unit["of"]:
+                res.samples.append(case)
+        return res
+    if part == "C":
+        for k, case in enumerate(content_cases(tier)):
+            if k % unit["of"] != unit["shard"]:
+                continue
+            vio, info = check_rules_case(case)
+            renders = case["driver"].endswith("-render")
+            _record(res, case, vio, renders and templated_rules(case) >= 1,
+                    "%s:%s:%s" % (case["sub"], "r" if renders else "-", ",".join(sorted(info["places"]))))
+            res.stat("cases_family_%s" % case["sub"], 1)
+            res.stat("cases_bodies_not_run_in_slot_order", 0 if info["in_slot_order"] else 1)
+            if k < unit["of"] and k % 5 == 0:
                 res.samples.append(case)
         return res
     if part == "B":
